@@ -103,10 +103,10 @@ Inductive tperm : ptree -> ptree -> Prop :=
 | tp_dir n d ents ents1 ents' :
     Forall2 tperm ents ents1 -> Permutation ents1 ents' -> tperm (PDir n d ents) (PDir n d ents').
 
-(* no namespace directive, no replicas / images entries, generators only create *)
+(* no namespace directive, no replicas / images / patches entries, generators only create *)
 Inductive perm_ok : ptree -> Prop :=
 | po_file docs : perm_ok (PFile docs)
-| po_dir n d ents : pd_ns d = "" -> pd_replicas d = [] -> pd_images d = [] -> gens_create d -> Forall perm_ok ents -> perm_ok (PDir n d ents).
+| po_dir n d ents : pd_ns d = "" -> pd_replicas d = [] -> pd_images d = [] /\ pd_patches d = [] -> gens_create d -> Forall perm_ok ents -> perm_ok (PDir n d ents).
 
 Section Perm.
   Variable nonstr : string -> bool.
@@ -226,10 +226,11 @@ Section Perm.
   Qed.
 
   Lemma run_kind_perm k d m m' x :
-    pd_ns d = "" /\ pd_replicas d = [] /\ pd_images d = [] -> Permutation m m' -> run_kind nonstr k d m = Ok x ->
+    pd_ns d = "" /\ pd_replicas d = [] /\ pd_images d = [] /\ pd_patches d = [] -> Permutation m m' -> run_kind nonstr k d m = Ok x ->
     exists x', run_kind nonstr k d m' = Ok x' /\ Permutation x x'.
   Proof.
-    intros (Hns & Hrp & Him) HP. unfold run_kind. rewrite Hns, Hrp, Him.
+    intros (Hns & Hrp & Him & Hpp) HP. unfold run_kind. rewrite Hns, Hrp, Him, Hpp.
+    destruct (String.eqb k "PatchTransformer"); [cbn; intros H; inv H; eauto|].
     destruct (String.eqb k "NamespaceTransformer"); [cbn; intros H; inv H; eauto|].
     destruct (String.eqb k "PrefixTransformer").
     { unfold prefix_transform. destruct (String.eqb (pd_prefix d) ""); [intros H; inv H; eauto|]. apply mapM_perm; exact HP. }
@@ -244,7 +245,7 @@ Section Perm.
   Qed.
 
   Lemma run_order_perm ks d : forall m m' x,
-    pd_ns d = "" /\ pd_replicas d = [] /\ pd_images d = [] -> Permutation m m' -> run_order nonstr ks d m = Ok x ->
+    pd_ns d = "" /\ pd_replicas d = [] /\ pd_images d = [] /\ pd_patches d = [] -> Permutation m m' -> run_order nonstr ks d m = Ok x ->
     exists x', run_order nonstr ks d m' = Ok x' /\ Permutation x x'.
   Proof.
     induction ks as [|k t IH]; intros m m' x Hns HP H; cbn [run_order] in *; [inv H; eauto|].
@@ -254,7 +255,7 @@ Section Perm.
   Qed.
 
   Lemma run_transformers_perm d m m' x :
-    pd_ns d = "" /\ pd_replicas d = [] /\ pd_images d = [] -> Permutation m m' -> run_transformers nonstr d m = Ok x ->
+    pd_ns d = "" /\ pd_replicas d = [] /\ pd_images d = [] /\ pd_patches d = [] -> Permutation m m' -> run_transformers nonstr d m = Ok x ->
     exists x', run_transformers nonstr d m' = Ok x' /\ Permutation x x'.
   Proof.
     intros Hns HP. unfold run_transformers.
